@@ -75,6 +75,13 @@ type Frame struct {
 	curSt    *State
 	phiOver  map[*ssa.Phi]Val
 	deferSeq int
+	pendingMapUse []pendingUse
+}
+
+type pendingUse struct {
+	next   *ssa.Next
+	clause *Clause
+	fact   string
 }
 
 func fnKey(fn *ssa.Function) string {
@@ -86,6 +93,9 @@ func fnKey(fn *ssa.Function) string {
 func shortName(key string) string {
 	if i := strings.LastIndex(key, "."); i >= 0 {
 		key = key[i+1:]
+	}
+	for _, p := range []string{"dynamic:", "param:", "field:"} {
+		key = strings.TrimPrefix(key, p)
 	}
 	return key
 }
@@ -306,9 +316,17 @@ func (f *Frame) addObl(kind, label, reach, goal string, local []string, localQ [
 	if n := e.safetyCounter[base]; n > 1 || label == "" {
 		name = fmt.Sprintf("%s#%d", base, e.safetyCounter[base])
 	}
+	if f.fc != nil && f.top && f.fc.Unchecked != nil {
+		short := strings.TrimPrefix(name, f.prefix+"#")
+		if why, ok := f.fc.Unchecked[short]; ok {
+			e.warn("obligation %s is not checked (assumed): %s", name, why)
+			return nil
+		}
+	}
 	o := &Obligation{Name: name, Func: f.prefix, Kind: kind, Label: label, Mode: e.mode, Reach: reach, Goal: goal, Local: local, LocalQ: localQ, Decls: decls, prelude: e.pre}
 	o.snap()
 	o.weakB2I = e.weakB2I
+	o.replay = e.replay
 	if e.curPos.IsValid() {
 		o.Pos = e.prog.Fset.Position(e.curPos).String()
 	}
@@ -784,6 +802,19 @@ func (f *Frame) calleeKey(c *ssa.CallCommon) string {
 	if p, ok := c.Value.(*ssa.Parameter); ok {
 		return "param:" + p.Name()
 	}
+	if p, ok := c.Value.(*ssa.Phi); ok && p.Comment != "" {
+		return "dynamic:" + p.Comment
+	}
+	// a local variable holding a function value: use the variable's name
+	if refs := c.Value.Referrers(); refs != nil {
+		for _, r := range *refs {
+			if dr, ok := r.(*ssa.DebugRef); ok && !dr.IsAddr {
+				if id, ok := dr.Expr.(*ast.Ident); ok {
+					return "dynamic:" + id.Name
+				}
+			}
+		}
+	}
 	return "dynamic:" + c.Value.Name()
 }
 
@@ -827,6 +858,7 @@ func (f *Frame) execBlock(b *ssa.BasicBlock, reach string, st *State, skip int) 
 		switch x := in.(type) {
 		case *ssa.If:
 			c := f.val(x.Cond).C[0]
+			f.mapRangeFacts(x, b, reach, st, c)
 			f.pushEdge(b, b.Succs[0], and(reach, c), st)
 			f.pushEdge(b, b.Succs[1], and(reach, not(c)), st.clone())
 			return
@@ -1135,6 +1167,26 @@ func (f *Frame) backEdge(li *loopInfo, from *ssa.BasicBlock, reach string, st *S
 	if li.hasMod {
 		f.frameObligations(tag+"#frame", reach, li.headSt, st, li.items, li.preSt.Alloc)
 	}
+	if f.fc != nil {
+		if cl := f.fc.MapAll[li.ord]; cl != nil {
+			// the key of the iteration that is ending satisfies P
+			f.phiOver = nil
+			f.curBlock, f.curIdx, f.curSt = from, len(from.Instrs), st
+			env := f.env(st)
+			if nx := f.loopNext(li); nx != nil {
+				if kv, ok := f.nextKeyVal(nx); ok {
+					env.vars["k"] = kv
+				}
+			}
+			fm, err := f.evalClause(env, cl)
+			if err != nil {
+				e.fail(f, err)
+			} else {
+				f.prove(tag+"#mapall", cl.Label, reach, fm, nil, nil, "")
+			}
+			f.phiOver = over
+		}
+	}
 }
 
 // havocLoopAuto: havoc what the loop body may modify (static scan).
@@ -1150,7 +1202,8 @@ func (f *Frame) havocLoopAuto(li *loopInfo, st *State) {
 				heaps[h] = true
 			}
 		case *ssa.MapUpdate:
-			all = true
+			heaps["G!mapver"] = true
+			f.e.heap("G!mapver", "Int", false)
 		case *ssa.Call:
 			f.scanCall(&x.Call, heaps, &all, depth, scanFn)
 		case *ssa.Defer, *ssa.Go, *ssa.Send, *ssa.Select:
@@ -1479,4 +1532,84 @@ func (f *Frame) regionDerived(li *loopInfo, phi *ssa.Phi) bool {
 		}
 	}
 	return true
+}
+
+// mapRangeFacts handles the `loop N mapall/mapuse` clauses at the branch on a
+// map iterator's ok flag.
+func (f *Frame) mapRangeFacts(x *ssa.If, b *ssa.BasicBlock, reach string, st *State, c string) {
+	ex, ok := x.Cond.(*ssa.Extract)
+	if !ok || ex.Index != 0 || f.fc == nil {
+		return
+	}
+	nx, ok := ex.Tuple.(*ssa.Next)
+	if !ok || nx.IsString {
+		return
+	}
+	li := f.loopOfBlock(b)
+	if li == nil {
+		return
+	}
+	e := f.e
+	// mapuse: inside the loop the yielded key satisfies P
+	for _, pu := range f.pendingMapUse {
+		if pu.next != nx {
+			continue
+		}
+		f.curSt = st
+		f.curIdx = len(b.Instrs)
+		env := f.env(st)
+		if kv, ok := f.nextKeyVal(nx); ok {
+			env.vars["k"] = kv
+		}
+		fm, err := f.evalClause(env, pu.clause)
+		if err != nil {
+			e.fail(f, err)
+			continue
+		}
+		if p, isqf := fm.qf(); isqf {
+			e.assume(and(reach, c), imp(pu.fact, p))
+		}
+	}
+	// mapall: when the loop ends normally every key satisfied P (each
+	// iteration that reaches the back edge proves P for its key)
+	if cl := f.fc.MapAll[li.ord]; cl != nil {
+		if rng, isR := nx.Iter.(*ssa.Range); isR {
+			m := f.val(rng.X)
+			e.assume(and(reach, not(c)), f.mapAllFact(cl.Label, m, st))
+		}
+	}
+}
+
+// nextKeyVal: the key yielded by a map iterator step.
+func (f *Frame) nextKeyVal(nx *ssa.Next) (Val, bool) {
+	rng, ok := nx.Iter.(*ssa.Range)
+	if !ok {
+		return Val{}, false
+	}
+	mt, ok := rng.X.Type().Underlying().(*types.Map)
+	if !ok {
+		return Val{}, false
+	}
+	tv, ok := f.vals[nx]
+	if !ok {
+		return Val{}, false
+	}
+	tt := nx.Type().(*types.Tuple)
+	if b, isB := tt.At(1).Type().(*types.Basic); isB && b.Kind() == types.Invalid {
+		return Val{}, false // key not used by the program: not materialised
+	}
+	k := len(f.e.layout(mt.Key()))
+	if len(tv.C) < 1+k {
+		return Val{}, false
+	}
+	return Val{T: mt.Key(), C: tv.C[1 : 1+k]}, true
+}
+
+func (f *Frame) loopNext(li *loopInfo) *ssa.Next {
+	for _, in := range li.header.Instrs {
+		if nx, ok := in.(*ssa.Next); ok {
+			return nx
+		}
+	}
+	return nil
 }
